@@ -207,9 +207,42 @@ def _assemble(ctx: Ctx, bulk: gb.Bulk, height: int, prev_hash: bytes, stamp: int
     for g in gens:
         elements |= {s for s in g.out_scripts if s and s[0] != 0x6A} | {s for s in g.prev_scripts if s}
         prev_scripts += g.prev_scripts
+    if len(prev_scripts) >= 2 and ch.chance(1, 5, "filter.collide?"):
+        outs = set(cb.out_scripts).union(*(g.out_scripts for g in gens))
+        prev_scripts, elements = _colliding_prevouts(ctx, header.hash, prev_scripts, elements, outs)
     ctx.log("mined", height, header.hash[:6], f"txs={len(txs)}", f"segwit={segwit}", f"time={stamp}", actor="miner")
     ctx.state(f"block:n{min(len(txs), 9)}:sw{int(segwit)}:c{len(commitments)}")
     return Mined(height, block, block.serialize(check_validity=False), txids, wtxids, elements, prev_scripts, gens)
+
+
+def _colliding_prevouts(ctx: Ctx, block_hash: bytes, prev_scripts: list[bytes], elements: set[bytes], outs: set[bytes]) -> tuple[list[bytes], set[bytes]]:
+    """Two of the spent scripts (caller-supplied data, committed nowhere in the block) are replaced by two distinct
+    scripts that hash to the SAME value of the block's filter range: BIP158 codes that as a delta of zero, and
+    the filter still counts, codes and matches both. The pair is found by a birthday search under the block's
+    SipHash key (about 1.25 sqrt(N * M) tries); the number of distinct elements does not change."""
+    # spent once, and not also an output script of the block: replacing such a script keeps the count of distinct elements
+    own = [k for k, s_ in enumerate(prev_scripts) if s_ and prev_scripts.count(s_) == 1 and s_ not in outs]
+    if len(own) < 2:
+        return prev_scripts, elements
+    i, j = own[0], own[1]
+    rest = set(elements) - {prev_scripts[i], prev_scripts[j]}
+    k0, k1 = gcs.key_from_block_hash(block_hash)
+    f = len(elements) * gcs.M
+    seen: dict[int, bytes] = {}
+    salt = ctx.ch.nbytes(4, "filter.collide.salt")
+    for counter in range(40000):
+        e = b"\x00\x14" + salt + counter.to_bytes(16, "big")
+        v = (gcs.siphash24(k0, k1, e) * f) >> 64
+        if v in seen and e not in rest and seen[v] not in rest:
+            a, b = seen[v], e
+            new = list(prev_scripts)
+            new[i], new[j] = a, b
+            ctx.fault("filter-internal-collision", f"n={len(elements)} after {counter} tries")
+            ctx.probe("filter-internal-collision")
+            return new, rest | {a, b}
+        seen[v] = e
+    ctx.probe("filter-internal-collision-not-found")
+    return prev_scripts, elements
 
 
 def _full(cover: list[int], span: int) -> list[int]:
